@@ -162,12 +162,22 @@ def check_parts(W, rec, parts, boundary: str, paths=("events", "encode_multipart
                 else:
                     body += enc.send_event(M.Field(name=name, headers=hdrs))
                     data = value.encode("utf-8")
-                # split the data in two Data events sometimes (encoder DATA state)
-                if len(data) > 3:
-                    body += enc.send_event(M.Data(data=data[:2], more_data=True))
-                    body += enc.send_event(M.Data(data=data[2:], more_data=False))
+                # how the application hands the part's data to the encoder: at once, in two pieces, or with an empty
+                # piece before / between / after (an empty read from a file, an empty frame) - the content is the same
+                sched = (len(data) + len(name) + len(parts)) % 5
+                if sched == 0 and len(data) > 3:
+                    pieces = [data[:2], data[2:]]
+                elif sched == 1:
+                    pieces = [b"", data]
+                elif sched == 2:
+                    pieces = [data, b""]
+                elif sched == 3 and len(data) > 1:
+                    pieces = [data[:1], b"", data[1:]]
                 else:
-                    body += enc.send_event(M.Data(data=data, more_data=False))
+                    pieces = [data]
+                rec.observe(f"encoder_data_schedule:{sched if len(pieces) > 1 else 'single'}")
+                for pi, piece in enumerate(pieces):
+                    body += enc.send_event(M.Data(data=piece, more_data=pi < len(pieces) - 1))
             body += enc.send_event(M.Epilogue(data=b""))
             contracts.flush(rec, case, "C02")
             dec = M.MultipartDecoder(bnd)
@@ -328,7 +338,11 @@ def _install(M):
         if isinstance(event, (M.Field, M.File)):
             return self.state == S.DATA_START and old in (S.PREAMBLE, S.PART, S.DATA)
         if isinstance(event, M.Data):
-            return self.state == S.DATA and old in (S.DATA_START, S.DATA) and isinstance(result, bytes)
+            if old not in (S.DATA_START, S.DATA) or not isinstance(result, bytes) or result not in (event.data, b"\r\n" + event.data):
+                return False
+            # nothing emitted yet and more to come: the encoder may go on waiting for the part's first bytes
+            still_waiting = self.state == S.DATA_START and old == S.DATA_START and not event.data and event.more_data
+            return self.state == S.DATA or still_waiting
         if isinstance(event, M.Epilogue):
             return self.state == S.COMPLETE
         return True
